@@ -284,7 +284,16 @@ func condsDominating(b *ssa.BasicBlock) []edgeCond {
 			if iff, ok := id.Instrs[len(id.Instrs)-1].(*ssa.If); ok && id.Succs[0] != id.Succs[1] {
 				for k, s := range id.Succs {
 					if len(s.Preds) == 1 && (s == b || s.Dominates(b)) {
-						out = append(out, edgeCond{Cond: iff.Cond, Val: k == 0, If: iff})
+						cond, val := iff.Cond, k == 0
+						// peel negations: `if !x` / `y := !x; if !y`
+						for {
+							u, ok := cond.(*ssa.UnOp)
+							if !ok || u.Op != token.NOT {
+								break
+							}
+							cond, val = u.X, !val
+						}
+						out = append(out, edgeCond{Cond: cond, Val: val, If: iff})
 					}
 				}
 			}
